@@ -185,7 +185,27 @@ func Harness_P09() {
 			}
 		}
 	}
+	// the report is located at the dereference that would panic: `*i.Get()` in the user of the interface, or `*p` in an
+	// implementation of Set
+	atDeref := false
+	for k, r := range results {
+		text := src
+		if split && k == 0 {
+			text = dep.String()
+		}
+		for _, d := range r.diags {
+			pos := r.fset.Position(d.Pos)
+			lines := strings.Split(text, "\n")
+			if split && strings.HasSuffix(pos.Filename, "q.go") {
+				lines = strings.Split(dep.String(), "\n")
+			}
+			if pos.Line >= 1 && pos.Line <= len(lines) && (strings.Contains(lines[pos.Line-1], "*i.Get()") || strings.Contains(lines[pos.Line-1], "_ = *p")) {
+				atDeref = true
+			}
+		}
+	}
 	ndAssert("P09.A3.no_internal_failure", !internal)
+	ndAssert("P09.A1b.the_report_is_located_at_the_dereference", ndImplies(panics, atDeref))
 	ndAssert("P09.A1.nil_through_dynamic_dispatch_is_reported", ndImplies(panics, reported))
 	if !bad1 && !bad2 {
 		ndAssert("P09.A2.well_behaved_implementations_are_not_reported", !reported)
